@@ -161,6 +161,27 @@ def explore(ctx, tier, rng, search=False):
                  ([1000], None, 30), ([960, 30], None, 30), ([2900, 2900], ['ref', 'decoy'], 30),
                  ([2900], None, 16), ([1960, 400, 60], None, 14)] * 2 + plans
     cases = []
+    # multi-model structures (ENDMDL records) in a multi-table database: updates addressed to each table (two models of
+    # equal size per structure, so that one value list fits every model)
+    for q in range(6 if deep else 2):
+        structs, half = [], []
+        hsame = rng.randint(4, 20)
+        for _ in range(2):
+            h = hsame if q % 2 == 0 else rng.randint(4, 20)     # equal sizes: a value list fits either table
+            st = big_struct(rng, 2 * h, serial0=1)
+            structs.append(st[:h] + ['ENDMDL'] + st[h:] + ['ENDMDL']); half.append(h)
+        case = {'structs': structs, 'part': 'multi-model'}
+        if rng.random() < 0.5: case['tablenames'] = ['ref', 'decoy']
+        names = G.default_tablenames(case)
+        ops = []
+        for tn, h in list(zip(names, half))[::-1] + list(zip(names, half)):
+            col = rng.choice(['temp', 'occ', 'x,y,z'])
+            nc = len(col.split(','))
+            vals = [[rng.randint(-800, 800) * 0.125 for _ in range(nc)] for _ in range(h)]
+            ops.append(['update', col, vals, tn, [], 'list'])
+            ops.append(['get', rng.choice(['rowID', 'x,y,z', 'temp']), tn, []])
+        case['ops'] = ops
+        cases.append(case)
     for sizes, tns, nops in plans:
         structs = []
         s0 = 1
